@@ -4,10 +4,11 @@
 cd "$(dirname "$0")" || exit 2
 OUT=/var/tmp/verif-apalache-$$
 ok=0
+mkdir -p $OUT; export TMPDIR=$OUT
 run() { timeout -s KILL 900 apalache-mc check --cinit=ConstInit --init=$1 --inv=$2 --length=$3 --out-dir=$OUT LadderInd.tla 2>&1 | grep -q "EXITCODE: OK"; }
 run Init IndInv 0 && echo "APALACHE-OK Init => IndInv" || { echo "APALACHE-FAIL Init => IndInv"; ok=1; }
 run IndInit IndInv 1 && echo "APALACHE-OK IndInv /\\ Next => IndInv'" || { echo "APALACHE-FAIL induction step"; ok=1; }
 run IndInit FinalIsFirstSuccess 0 && echo "APALACHE-OK IndInv => FinalIsFirstSuccess" || { echo "APALACHE-FAIL IndInv => FinalIsFirstSuccess"; ok=1; }
 run IndInit NeverIdentity 0 && { echo "APALACHE-FAIL negative control NeverIdentity was not refuted"; ok=1; } || echo "APALACHE-OK negative control refuted"
-rm -rf $OUT
+rm -rf $OUT; rmdir tmp 2>/dev/null
 exit $ok
